@@ -62,7 +62,7 @@ func (c *Constraints) transform(v reflect.Value) {
 
 		case reflect.String:
 			// can only apply upper transform to string
-			v.SetString(strings.ToUpper(v.Interface().(string)))
+			v.SetString(strings.ToUpper(v.String()))
 		}
 	}
 
@@ -78,7 +78,7 @@ func (c *Constraints) transform(v reflect.Value) {
 
 		case reflect.String:
 			// can only apply upper transform to string
-			v.SetString(strings.ToLower(v.Interface().(string)))
+			v.SetString(strings.ToLower(v.String()))
 		}
 	}
 }
